@@ -195,6 +195,27 @@ func (x *Exec) libCall(fr *Frame, st *State, key string, callee *ssa.Function, a
 		"slices.Insert", "slices.Delete", "slices.DeleteFunc", "slices.Compact", "slices.CompactFunc", "slices.Replace":
 		// in-place library operations on a slice: its element array changes, nothing else;
 		// the result (if any) is unconstrained
+		switch key {
+		case "sort.Strings", "sort.Ints", "sort.Float64s", "slices.Sort", "slices.SortFunc", "slices.SortStableFunc", "slices.Reverse":
+			// these only permute the elements of their argument inside [off, off+len)
+			if len(args) >= 1 {
+				if sl, ok := args[0].T.Underlying().(*types.Slice); ok && args[0].S != "" {
+					et := sl.Elem()
+					hk := heapKeySlice(et)
+					sarr := x.heapGet(st, hk, et)
+					sv := args[0]
+					na := x.s.declare("sorted", "(Array Int "+x.s.sortOf(et)+")")
+					x.assume(st.guard, fmt.Sprintf("(forall ((ai! Int)) (! (=> (or (< ai! (s_off %s)) (>= ai! (+ (s_off %s) (s_len %s)))) (= (select %s ai!) (select (select %s (s_base %s)) ai!))) :pattern ((select %s ai!))))",
+						sv.S, sv.S, sv.S, na, sarr, sv.S, na))
+					if inv := x.s.typeInv(et, "(select "+na+" ai!)"); inv != "true" {
+						x.assume(st.guard, fmt.Sprintf("(forall ((ai! Int)) (! %s :pattern ((select %s ai!))))", inv, na))
+					}
+					x.heapSet(st, hk, et, "(ite (= (s_base "+sv.S+") 0) "+sarr+" (store "+sarr+" (s_base "+sv.S+") "+na+"))")
+					x.trust("sort.Strings/Ints/Float64s, slices.Sort*, slices.Reverse change only the elements of their argument inside its window (new contents unconstrained; comparators assumed pure)")
+					return V{T: rt}, true
+				}
+			}
+		}
 		if ms, ok := sliceOpMods(x.curCall); ok {
 			for _, m := range ms {
 				x.havocKeyCall(st, m.key, m.t)
